@@ -441,7 +441,7 @@ def run(tier):
                     not np.allclose([p.point for p in m2.pulses], [p.point for p in m.pulses],
                                     atol=1e-3 * m.min_seglen):
                 chk.violation(dict(kind='rebuilt-pulse-numbering', family=fam), dict(detail))
-            elif lk in ('none', 'z', 'lap'):
+            elif lk in ('none', 'z', 'lap', 'ins', 'skin', 'skin1'):
                 m.compute(); m2.compute()
                 z1 = np.array([s.impedance for s in m.sources])
                 z2 = np.array([s.impedance for s in m2.sources])
